@@ -1,1 +1,88 @@
-// window lemma (to be filled)
+// ---- lemmas/velocity_window.rs : C12 over histories (pure spec, about vc_step / vc_accepts only) ----
+// A history is a sequence of insert requests (time, amount) with non-decreasing times, run through vc_step from a fresh
+// control (restarts restore the state verbatim: [C12.restore.keeps], [C12.load.state]).  Bucket number of a time t: t / I.
+pub open spec fn run(vc: VcAbs, ev: Seq<(u64, u64)>) -> VcAbs
+    decreases ev.len()
+{
+    if ev.len() == 0 { vc } else { vc_step(run(vc, ev.drop_last()), ev.last().0, ev.last().1) }
+}
+pub open spec fn acc_last(vc: VcAbs, ev: Seq<(u64, u64)>) -> bool
+    recommends ev.len() > 0
+{
+    vc_accepts(run(vc, ev.drop_last()), ev.last().0, ev.last().1)
+}
+pub open spec fn bq(t: u64, i: u32) -> int { t as int / i as int }
+pub open spec fn sorted_ev(ev: Seq<(u64, u64)>) -> bool {
+    forall|a: int, b: int| 0 <= a <= b < ev.len() ==> ev[a].0 <= ev[b].0
+}
+pub open spec fn fresh(vc: VcAbs) -> bool {
+    abs_wf(vc) && vc.start_sec == 0 && vc.buckets == zeros(vc.buckets.len()) && vc.limit < u64::MAX
+}
+// approved amounts whose bucket number lies in [lo, hi]
+pub open spec fn brange(vc: VcAbs, ev: Seq<(u64, u64)>, lo: int, hi: int) -> nat
+    decreases ev.len()
+{
+    if ev.len() == 0 { 0 } else {
+        brange(vc, ev.drop_last(), lo, hi)
+            + (if acc_last(vc, ev) && lo <= bq(ev.last().0, vc.bucket_interval) <= hi { ev.last().1 as nat } else { 0 })
+    }
+}
+// approved amounts with time >= a
+pub open spec fn wsum(vc: VcAbs, ev: Seq<(u64, u64)>, a: u64) -> nat
+    decreases ev.len()
+{
+    if ev.len() == 0 { 0 } else {
+        wsum(vc, ev.drop_last(), a) + (if acc_last(vc, ev) && ev.last().0 >= a { ev.last().1 as nat } else { 0 })
+    }
+}
+
+proof fn lemma_brange_empty(vc: VcAbs, ev: Seq<(u64, u64)>, lo: int, hi: int)
+    requires lo > hi,
+    ensures brange(vc, ev, lo, hi) == 0,
+    decreases ev.len(),
+{
+    if ev.len() > 0 { lemma_brange_empty(vc, ev.drop_last(), lo, hi); }
+}
+proof fn lemma_brange_split(vc: VcAbs, ev: Seq<(u64, u64)>, lo: int, hi: int)
+    requires lo <= hi,
+    ensures brange(vc, ev, lo, hi) == brange(vc, ev, lo + 1, hi) + brange(vc, ev, lo, lo),
+    decreases ev.len(),
+{
+    if ev.len() > 0 { lemma_brange_split(vc, ev.drop_last(), lo, hi); }
+}
+proof fn lemma_brange_mono(vc: VcAbs, ev: Seq<(u64, u64)>, lo1: int, lo2: int, hi: int)
+    requires lo1 <= lo2,
+    ensures brange(vc, ev, lo2, hi) <= brange(vc, ev, lo1, hi),
+    decreases ev.len(),
+{
+    if ev.len() > 0 { lemma_brange_mono(vc, ev.drop_last(), lo1, lo2, hi); }
+}
+// nothing is counted above the newest bucket number seen
+proof fn lemma_brange_above(vc: VcAbs, ev: Seq<(u64, u64)>, lo: int, hi: int, top: int)
+    requires forall|k: int| 0 <= k < ev.len() ==> bq(#[trigger] ev[k].0, vc.bucket_interval) <= top, lo > top,
+    ensures brange(vc, ev, lo, hi) == 0,
+    decreases ev.len(),
+{
+    if ev.len() > 0 {
+        assert forall|k: int| 0 <= k < ev.drop_last().len() implies bq(#[trigger] ev.drop_last()[k].0, vc.bucket_interval) <= top by {
+            assert(ev.drop_last()[k] == ev[k]);
+        }
+        lemma_brange_above(vc, ev.drop_last(), lo, hi, top);
+    }
+}
+// a bucket vector whose j-th entry is what was approved in bucket number cur - j sums to what was approved in the range
+proof fn lemma_vsum_is_brange(vc: VcAbs, ev: Seq<(u64, u64)>, s: Seq<u64>, cur: int)
+    requires forall|j: int| 0 <= j < s.len() ==> #[trigger] s[j] as nat == brange(vc, ev, cur - j, cur - j),
+    ensures vsum(s) == brange(vc, ev, cur - s.len() + 1, cur),
+    decreases s.len(),
+{
+    if s.len() == 0 {
+        lemma_brange_empty(vc, ev, cur + 1, cur);
+    } else {
+        let d = s.drop_last();
+        assert forall|j: int| 0 <= j < d.len() implies #[trigger] d[j] as nat == brange(vc, ev, cur - j, cur - j) by { assert(d[j] == s[j]); }
+        lemma_vsum_is_brange(vc, ev, d, cur);
+        lemma_brange_split(vc, ev, cur - s.len() + 1, cur);
+        assert(s.last() == s[s.len() - 1]);
+    }
+}
